@@ -75,7 +75,7 @@ Proof.
         repeat match goal with |- context [if ?b then _ else _] => destruct b end; repeat astrip; try exact A.
       all: intros c0 H0 A0; change (getop s o = Some c0) in H0; rewrite Ec in H0; injection H0 as <-;
            intros S; cbn in S; destruct (A0 S) as (_ & X & _); congruence.
-    + destruct (alookup (r_mid r) (rmap s)) as [o|]; repeat astrip; exact A.
+    + destruct (alookup (r_mid r) (rmap s)) as [o|]; repeat match goal with |- context [if ?b then _ else _] => destruct b end; repeat astrip; exact A.
   - (* DrvEnd *) destruct (is_running s); [now apply Al_end_driver|exact A].
   - (* ServerSend *) repeat astrip; exact A.
   - (* CliPoll *) destruct (getop s o) as [c|] eqn:Ec; [|exact A].
@@ -165,7 +165,7 @@ Proof.
     + destruct (getop s o1) as [c1|] eqn:Ec; [destruct (r_kind r); destruct (o_rx c1) eqn:Erx|destruct (r_kind r)]; cbn [negb];
         repeat match goal with |- context [if ?b then _ else _] => destruct b end; repeat kstrip I; try exact H0.
       all: intros ->; exfalso; rewrite Hc in Ec; injection Ec as <-; destruct I as (_ & _ & X & _); congruence.
-    + destruct (alookup (r_mid r) (rmap s)) as [o1|]; repeat kstrip I; exact H0.
+    + destruct (alookup (r_mid r) (rmap s)) as [o1|]; repeat match goal with |- context [if ?b then _ else _] => destruct b end; repeat kstrip I; exact H0.
   - (* DrvEnd *) destruct (is_running s); [now apply kept_end_driver|exact H0].
   - (* ServerSend *) repeat kstrip I; exact H0.
   - (* CliPoll *) destruct (getop s o') as [c1|] eqn:Ec; [|exact H0].
